@@ -18,9 +18,11 @@ PassSummary == [repass |-> m.repass, errs |-> m.errs, vals |-> Vals(m)]
 GInit == Init /\ hist = <<>>
 GNext == /\ Next
          /\ hist' = IF Running /\ i > Len(prog) THEN Append(hist, PassSummary) ELSE hist
-GSpec == GInit /\ [][GNext]_gvars
+GSpec == GInit /\ [][GNext]_gvars /\ WF_gvars(GNext /\ Run)
 
-Export == [prog |-> prog, org |-> org, errs |-> m.errs, passes |-> Len(hist'), hist |-> hist', lay |-> m.lay,
+\* passes: what a run without the forced extra pass needs (hist also lists the extra pass when WithExtra)
+Export == [prog |-> prog, org |-> org, errs |-> m.errs,
+           passes |-> Len(hist') - (IF snap # NoSnap THEN 1 ELSE 0), hist |-> hist', lay |-> m.lay,
            vals |-> Vals(m), patched |-> m.patched, solvable |-> Solvable(prog, org),
            equback |-> EquBackward(prog)]
 OnDone == (phase # "done" /\ phase' = "done") => PrintT(<<"OUT", ToJson(Export)>>)
